@@ -648,6 +648,7 @@ func main() {
 		{"marshalEntrySrc", []string{"MarshalEntrySrc.lean"}, genMarshalEntrySrc},
 		{"clientSrc", []string{"ClientSrc.lean"}, genClientSrc},
 		{"connSrc", []string{"ConnSrc.lean"}, genConnSrc},
+		{"txnsSrc", []string{"TxnsSrc.lean"}, genTxnsSrc},
 	}
 	status := map[string]interface{}{}
 	failed := 0
